@@ -159,6 +159,7 @@ func runFlavour(c *vf.Ctx, bin string, fl flavour) *env {
 		return e
 	}
 	fmt.Printf("[%s] phase A (routes x insufficient credentials) done after %.1fs\n", e.tag(), time.Since(t0).Seconds())
+	e.runMethodSweep()
 
 	if !fl.LogKeeper && !e.tooMany() {
 		// Phase Q: statement kinds of the query endpoint
@@ -166,7 +167,7 @@ func runFlavour(c *vf.Ctx, bin string, fl flavour) *env {
 		fmt.Printf("[%s] phase Q (statement kinds) done after %.1fs\n", e.tag(), time.Since(t0).Seconds())
 
 		// Phase G: grant / revoke matrix
-		e.runGrants(rnd, c.Pick(10, 60))
+		e.runGrants(rnd, c.Pick(10, 150))
 		fmt.Printf("[%s] phase G (grant/revoke) done after %.1fs\n", e.tag(), time.Since(t0).Seconds())
 	}
 
@@ -235,6 +236,56 @@ func (e *env) tooMany() bool {
 	return false
 }
 
+// runMethodSweep: a path template must not be served under a method it was not registered
+// for (the router answers 405/404 itself; anything else without credentials is an escape).
+func (e *env) runMethodSweep() {
+	c := e.c
+	reg := map[string]map[string]bool{}
+	var patterns []string
+	for _, rt := range e.routes {
+		if rt.PreRouter {
+			continue // the prefixes ignore the method; they are judged as routes
+		}
+		if reg[rt.Pattern] == nil {
+			reg[rt.Pattern] = map[string]bool{}
+			patterns = append(patterns, rt.Pattern)
+		}
+		reg[rt.Pattern][rt.Method] = true
+	}
+	before := e.base
+	for n, p := range patterns {
+		for _, meth := range []string{"GET", "HEAD", "POST", "PUT", "PATCH", "DELETE", "OPTIONS", "TRACE"} {
+			if reg[p][meth] || reg[p]["*"] {
+				continue
+			}
+			req := specFor(Route{Method: meth, Pattern: p}, victimTarget(5000+n))
+			resp := e.send(req)
+			c.Eval(1)
+			switch {
+			case resp.Err != "":
+				e.note("unregistered-method", vClientErr)
+			case isRouterMiss(resp) || resp.Status == 405 || resp.Status == 404:
+				e.note("unregistered-method", vNoRoute)
+				c.Nontrivial(e.tag() + "|unregistered-method|" + meth + " " + p)
+			case resp.Status == 401 || resp.Status == 403:
+				e.note("unregistered-method", vRejected)
+			default:
+				e.note("unregistered-method", vEscaped)
+				c.Violation("unregistered-method-served:"+meth+" "+p,
+					fmt.Sprintf("[%s] %s %s is not in the route table but is answered without credentials: %d %q", e.tag(), meth, p, resp.Status, trunc(resp.Body, 100)),
+					map[string]any{"flavour": e.tag(), "kind": "status", "case": meth + " " + p,
+						"cases": []oneCase{{Cred: cred{Class: clNone, Transport: trNone, Variant: "no-credentials"}, Req: req, Resp: resp, Verdict: vEscaped}}})
+			}
+		}
+	}
+	if d := before.diff(e.takeFingerprint()); len(d) > 0 {
+		c.Violation("side-effect-despite-rejection:unregistered-methods:"+diffKinds(d),
+			fmt.Sprintf("[%s] requests with unregistered methods changed the state: %s", e.tag(), strings.Join(d, "; ")),
+			map[string]any{"flavour": e.tag(), "kind": "side-effect", "diff": d})
+		e.repair()
+	}
+}
+
 // runSufficient: for every route the administrator (and the non-admin classes the route's
 // need admits) must not be turned away by the authentication/authorisation layer.
 func (e *env) runSufficient() {
@@ -292,17 +343,22 @@ func (e *env) runSufficient() {
 					v = vClientErr
 				case isRouterMiss(resp):
 					v = vNoRoute
+				case (resp.Status == 401 || resp.Status == 403) && !fluxOff && w.class != clAdmin:
+					// stricter than the model: not against the property, recorded
+					v = "refused-although-modelled-sufficient"
+					c.Distinct("stricter-than-model-"+e.tag(), rt.key()+" ["+w.class+"]: "+trunc(resp.Body, 120))
 				case (resp.Status == 401 || resp.Status == 403) && !fluxOff:
+					// the administrator turned away: the rejections observed before would be vacuous
 					v = "SUFFICIENT-REJECTED"
-					c.Violation("sufficient-rejected:"+rt.key()+":"+w.class,
-						fmt.Sprintf("[%s] %s refuses %s although the route needs %s: %d %q", e.tag(), rt.key(), cr.key(), nd, resp.Status, trunc(resp.Body, 120)),
+					c.Violation("administrator-rejected:"+rt.key(),
+						fmt.Sprintf("[%s] %s refuses %s: %d %q", e.tag(), rt.key(), cr.key(), resp.Status, trunc(resp.Body, 120)),
 						map[string]any{"flavour": e.tag(), "kind": "sufficient", "case": rt.key(), "cases": []oneCase{{Cred: cr, Req: req, Resp: resp, Verdict: v}}})
 				case resp.Status/100 != 2:
 					v = fmt.Sprintf("accepted-status-%dxx", resp.Status/100)
 					c.Distinct("sufficient-but-not-2xx-"+e.tag(), fmt.Sprintf("%s %s -> %d %s", w.class, rt.key(), resp.Status, trunc(strings.TrimSpace(resp.Body), 70)))
 				}
 				e.note(w.class, v)
-				if v != vClientErr && v != vNoRoute && v != "SUFFICIENT-REJECTED" {
+				if v != vClientErr && v != vNoRoute && v != "SUFFICIENT-REJECTED" && v != "refused-although-modelled-sufficient" {
 					c.Nontrivial(e.tag() + "|" + rt.key() + "|" + w.class + "/" + cr.Transport + "|accepted")
 				}
 			}
